@@ -61,7 +61,7 @@ class CallMixin:
         # ---- closures / contract calls
         if name in st.vars and isinstance(st.vars[name], Closure):
             return self.call_closure(st, st.vars[name], [self.ev(st, a, spec) for a in args], ln)
-        cname = self.contract.callee_alias.get(name, name)
+        cname = self.resolve_callee(name)
         if cname in self.registry:
             vals = [self.ev(st, a, spec) for a in args]
             return self.call_contract(st, self.registry[cname], vals, ln)
@@ -206,13 +206,13 @@ class CallMixin:
                 ref = sub.vars[a]
                 if isinstance(ref, Ref):
                     c = sub.heap[ref.loc]
-                    c.term = z3.Const(fresh_name(a + "'"), c.term.sort())
+                    c.term = z3.Const(fresh_name(a + "_post"), c.term.sort())
                     st.heap[ref.loc].term = c.term
                 elif isinstance(ref, Obj):
                     for fname, fref in ref.fields.items():
                         if isinstance(fref, Ref) and fname in callee.assigns_fields.get(a, ref.fields):
                             c = sub.heap[fref.loc]
-                            c.term = z3.Const(fresh_name(fname + "'"), c.term.sort())
+                            c.term = z3.Const(fresh_name(fname + "_post"), c.term.sort())
                             st.heap[fref.loc].term = c.term
             result = self.fresh_result(sub, callee)
             sub.vars["result"] = result
@@ -362,6 +362,8 @@ class CallMixin:
             v = ev(args[0])
             if isinstance(v, Ref) or isinstance(v, Vec):
                 return v
+            if isinstance(v, tuple) and all(not isinstance(x, (tuple, Ref, Vec)) for x in v):
+                return self.materialize(st, self.as_vec(st, v), "array")
             raise Unsupported("np.array of list")
         if fn in ("maximum", "minimum"):
             a, b = ev(args[0]), ev(args[1])
@@ -524,14 +526,30 @@ def _implies(engine, st, node):
 
 
 def _old(engine, st, node):
-    """old(x): value of parameter x at function entry (arrays: the entry contents)."""
+    """old(x): value of parameter x at function entry.  Arrays (and records of arrays) are returned as
+    immutable SNAPSHOTS of their entry contents, so indexing the result never sees later writes."""
     sub = st.fork()
     sub.vars = dict(st.entry)
     for name, v in st.vars.items():
         if name not in sub.vars:
             sub.vars[name] = v
     sub.heap = {**st.heap, **{k: Cell(c.term, c.shape, c.kind) for k, c in st.entry_heap.items()}}
-    return engine.ev(sub, node.args[0], True)
+    v = engine.ev(sub, node.args[0], True)
+    cache = st.ghost.setdefault("_oldsnap", {})
+
+    def snap(x):
+        if isinstance(x, Ref):
+            key = (id(st.entry_heap), x.loc)
+            if key not in cache or cache[key].loc not in st.heap:
+                c = sub.heap[x.loc]
+                cache[key] = st.alloc(c.term, c.shape, c.kind)
+            return Ref(cache[key].loc, x.prefix)
+        if isinstance(x, Obj):
+            return Obj({k: snap(f) for k, f in x.fields.items()})
+        if isinstance(x, tuple):
+            return tuple(snap(y) for y in x)
+        return x
+    return snap(v)
 
 
 def _isfinite(engine, st, node):
